@@ -141,6 +141,8 @@ def value(v, nodes):
         return None
     if v == "other":
         return NotANode()
+    if v == "other0":
+        return 0             # a falsy non-node
     return nodes[v]
 
 
